@@ -186,10 +186,16 @@ def check(run):
         box, velz = PAIRS[k % len(PAIRS)]
         lc = k % 6 == 5
         if lc:
-            T = gen_catalog.make_lc_tree(rng, H=int(rng.integers(2, 40)), box=box, velz=velz, smallratio=bool(k % 2))
+            T = gen_catalog.make_lc_tree(rng, H=(3 if k % 12 == 5 else int(rng.integers(2, 40))), box=box, velz=velz, smallratio=bool(k % 2), big_ints=bool(k % 12 == 11))
             slabs = None
         else:
-            T = gen_catalog.make_tree(rng, nslab=int(rng.integers(1, 4)), box=box, velz=velz, smallratio=bool(k % 2), halos_per_slab=None, int_header=bool(k % 3 == 1))
+            # per-file halo counts equal to a column's trailing width (3 vector components, nprev=2) make a mis-oriented
+            # broadcast of a per-halo factor onto a per-halo vector shape-compatible: give such files their own class
+            nslab = int(rng.integers(1, 4))
+            hps = [int(rng.choice([0, 1, 2, 3, 3, 4, 9])) for _ in range(nslab)] if k % 4 == 2 else None
+            if hps:
+                hps[int(rng.integers(0, nslab))] = 3
+            T = gen_catalog.make_tree(rng, nslab=nslab, box=box, velz=velz, smallratio=bool(k % 2), halos_per_slab=hps, int_header=bool(k % 3 == 1), big_ints=bool(k % 4 == 3))
             slabs = T['slab_inds']
         try:
             for cleaned in ((True,) if lc else (True, False)):
